@@ -266,6 +266,29 @@ func declOptsCase(c *Ctx, seq []string) {
 			return
 		}
 	}
+	// the version flag is an option like any other: Version() with a taken name panics, with free names it does not
+	for _, vn := range []string{"v version", seq[0], strings.Fields(seq[len(seq)-1])[len(strings.Fields(seq[len(seq)-1]))-1] + " vv"} {
+		appV := cli.App("app", "")
+		for _, d := range seq {
+			appV.BoolOpt(d, false, "")
+		}
+		wantP := false
+		for _, n := range strings.Fields(vn) {
+			if _, dup := taken[n]; dup {
+				wantP = true
+			}
+		}
+		gotP := false
+		func() {
+			defer func() { gotP = recover() != nil }()
+			appV.Version(vn, "1.0")
+		}()
+		c.Count("version_declarations", 1)
+		if gotP != wantP {
+			c.Violation("C18", key+fmt.Sprintf(" then Version(%q)", vn), cs(), fmt.Sprintf("panic=%v (a version flag shares the option name table)", wantP), fmt.Sprintf("panic=%v", gotP))
+			return
+		}
+	}
 	// declaring a taken name panics at any time, also after the application has been run
 	{
 		app3 := cli.App("app", "")
